@@ -1,8 +1,33 @@
 package otto
 
 import (
+	"errors"
 	"reflect"
+	"strconv"
 )
+
+var errNotCanonicalKey = errors.New("not the canonical text of a key")
+
+// mapKeyFromName converts a property name to a key of the given kind. For integer kinds
+// only the canonical decimal text of a value (the text enumeration lists) is a key: Go
+// literal syntax ("010", "0x1", "+1", "1_0", "-0") must not alias another key.
+func mapKeyFromName(name string, kind reflect.Kind) (reflect.Value, error) {
+	key, err := stringToReflectValue(name, kind)
+	if err != nil {
+		return key, err
+	}
+	switch kind {
+	case reflect.Int, reflect.Int8, reflect.Int16, reflect.Int32, reflect.Int64:
+		if strconv.FormatInt(key.Int(), 10) != name {
+			return reflect.Value{}, errNotCanonicalKey
+		}
+	case reflect.Uint, reflect.Uint8, reflect.Uint16, reflect.Uint32, reflect.Uint64:
+		if strconv.FormatUint(key.Uint(), 10) != name {
+			return reflect.Value{}, errNotCanonicalKey
+		}
+	}
+	return key, nil
+}
 
 func (rt *runtime) newGoMapObject(value reflect.Value) *object {
 	obj := rt.newObject()
@@ -30,7 +55,7 @@ func newGoMapObject(value reflect.Value) *goMapObject {
 }
 
 func (o goMapObject) toKey(name string) reflect.Value {
-	reflectValue, err := stringToReflectValue(name, o.keyType.Kind())
+	reflectValue, err := mapKeyFromName(name, o.keyType.Kind())
 	if err != nil {
 		panic(newError(nil, "TypeError", 0, "%q is not a key of %s", name, o.value.Type()))
 	}
@@ -70,7 +95,7 @@ func goMapGetOwnProperty(obj *object, name string) *property {
 	// being possible to represent as a string, 2) being possible to reconstruct
 	// from a string, and 3) having a meaningful failure case in this context
 	// other than "key does not exist"
-	key, err := stringToReflectValue(name, goObj.keyType.Kind())
+	key, err := mapKeyFromName(name, goObj.keyType.Kind())
 	if err != nil {
 		return nil
 	}
@@ -125,7 +150,7 @@ func goMapDefineOwnProperty(obj *object, name string, descriptor property, throw
 
 func goMapDelete(obj *object, name string, throw bool) bool {
 	goObj := obj.value.(*goMapObject)
-	key, err := stringToReflectValue(name, goObj.keyType.Kind())
+	key, err := mapKeyFromName(name, goObj.keyType.Kind())
 	if err != nil {
 		// not a possible key: there is no such property (8.12.7 step 2)
 		return true
